@@ -478,7 +478,8 @@ func maxCellWidth(m Matrix, c rune, printed, prec int, w widther) ([]byte, int) 
 		max        int
 	)
 	for i := 0; i < rows; i++ {
-		if i >= printed-1 && i < rows-printed && 2*printed < rows {
+		// The rows printed are the first and the last printed ones.
+		if i >= printed && i < rows-printed && 2*printed < rows {
 			i = rows - printed - 1
 			continue
 		}
